@@ -134,6 +134,10 @@ def gen_ops(cfg, amap, rng, word_bytes):
         return amap.compose(bankfull >> amap.bankbits, bankfull & ((1 << amap.bankbits) - 1), row, colw)
 
     hot_rows = [rng.randrange(nrows) for _ in range(wl.get("hot_rows", 3))]
+    r2 = random.Random("%s/rows-one-bit-apart" % cfg["seed"])
+    if len(hot_rows) >= 2 and r2.random() < 0.6:
+        # two of the hot rows differ in a single bit -- mostly the top one (a row compare that loses a bit sees a row hit)
+        hot_rows[1] = hot_rows[0] ^ (1 << r2.choice([amap.rowbits - 1, amap.rowbits - 1, r2.randrange(amap.rowbits)]))
     hot_cols = [rng.randrange(ncolw) for _ in range(wl.get("hot_cols", 2))]
     hot_banks = list(range(nbanks_total))
     if wl.get("hot_banks"):
@@ -379,6 +383,9 @@ def run_case(cfg, want_fsm=False):
             # payload signals are don't-care while valid is low: half of the masters drive garbage on them
             masters[-1].scramble_rng = random.Random("%s/scramble/%d" % (cfg["seed"], p))
 
+    if cfg["workload"].get("victim_serial"):
+        masters[0].mode = "strict"
+        masters[0].max_reads_outstanding = 1
     nbanks_total = phy.nranks << geom.bankbits
     D = drain_bound(phy, timing, cs, nbanks_total, nports)
     state = dict(phase="traffic", t_traffic_end=None, t_sweep_start=None, idle_since=None, hang=None)
